@@ -234,6 +234,22 @@ fn main() {
     let name: &'static str = Box::leak(prop.to_string().into_boxed_str());
     let mut out = Out::new(name, path);
     f(&mut out, tier, &mut rng);
+    // generators added in rounds 13-15 (see DESIGN.md 9.7), per property
+    out.rule.push_str(match prop {
+        "C01" | "C02" | "C10" | "C11" | "C15" => "; rounds 13-15: network-management and transport traffic in the authority histories (claims for the daemon's own address with the lowest / highest / random NAME, TP.CM_BAM announcements, TP.DT packets from the unit, a stranger and the own address), a timed transport history (C10, C11); commands right after scheduling and after a skipped large frame (C02, C15); 16/17 clients at once through the real server, then late ones (C15)",
+        "C03" | "C04" | "C05" => "; rounds 13-15: a frame stalled mid-payload while 0..40 signals are published (C03, C05); death inside upgrade frames with 257..1024-byte payloads (C03); the session on a paused clock advanced by 50 ms .. 1 h between the parts of a frame (C04, C05); every log record also passes through the real SystemdLogger; 16 clients at once then a late one (C05)",
+        "C06" => "; rounds 13-15: every engine speed 0..8031 rpm x starter nibbles through the authority; thorough only: 66 s of real silence between two frames of a unit",
+        "C08" => "; rounds 13-15: simulated command ages of 64 s, 66 s and 131.5 s in the Volvo driver histories",
+        "C09" => "; rounds 13-15: 5.3 s (thorough: also 11 s, tilt) of real silence while an emergency is pending",
+        "C13" => "; rounds 13-15: the session constructor under a guard with the caller's name as the input (names with a multi-byte character across byte 64); a gather-capable sink (poll_write_vectored) with byte budgets 1..64 per call",
+        "C14" => "; rounds 13-15: 16 clients at once through the real server, then late ones",
+        "C16" => "; rounds 13-15: the daemon's socket file removed before the termination request",
+        "C17" => "; rounds 13-15: every constructor and setter of a filter entry x boundary values, Filter::default; frx: a skipped frame then a passed frame waiting on a filtered network, one recv, the delivered frame observed",
+        "C18" => "; rounds 13-15: the real glonax-input fed bursts in ONE write (every button followed by a sample of the axis with the same number); a stub daemon whose socket appears 300 / 1200 ms after glonax-input was started",
+        "C19" => "; rounds 13-15: every segment mutator (set_location, add_location, set_rotation, add_rotation) in random order after construction",
+        "C20" => "; rounds 13-15: the real glonaxd in every operating mode and with --pilot-only, the set-up requests to every configured unit observed",
+        _ => "",
+    });
     out.finish();
     bus::cleanup();
 }
